@@ -917,7 +917,7 @@ def main():
     ck.stubs = ['np.around -> round-half-even via ToInt', 'np.clip -> nested If', 'np.std -> fresh s >= 0 with s*s == variance', 'astype(int) -> identity on integral terms']
     ck.assumptions = ['exact reals (a value whose pre-rounding image is within 1e-6 of a tie may round either way in binary64: skipped by the replayer)',
                       'inputs NaN/inf-free; n <= 4 elements', 'monotonicity by three lemmas: executed term is clip(rne(F*(x-MU)+M)) with common F>=0; affine part monotone; round-clip monotone']
-    bitss = (2, 4, 8) if not ck.thorough else (2, 3, 4, 5, 6, 7, 8)
+    bitss = (2, 3, 4, 8) if not ck.thorough else (2, 3, 4, 5, 6, 7, 8)          # an odd width in every run: (-2)**(b-1) is not -2**(b-1) there
     ns = (1, 3) if not ck.thorough else (1, 2, 3, 4, 6)
     ck.bounds = dict(bits=bitss, n=ns, stats_calc_num_samples='1, 2, n+5', period='symbolic integer (inductive step); -3..ncalls+2 unrolled for 6 (quick) / 8 calls')
     jobs = []
